@@ -40,6 +40,7 @@ import (
 	"github.com/scionproto/scion/router/underlayproviders/udpip"
 
 	"verifharness/internal/rtgen"
+	"verifharness/internal/rtgen2"
 	"verifharness/internal/vgen"
 )
 
@@ -252,7 +253,14 @@ const (
 // ---------------------------------------------------------------- histories
 
 type dataPkt struct {
-	sc     *rtgen.Scenario
+	sc     *rtgen.Scenario // nil for one-hop packets
+	ohp    bool            // one-hop path (processOHP): no up check exists there
+	follow bool            // rejected by the fast path: the slow-path reply is followed (HPktR)
+	ing    rtgen.Ingress
+	l4     rtgen.L4
+	kind   string
+	mut    string
+	macs   string // MAC table term
 	raw    []byte
 	rec    *rtgen.Rec
 	egress int // link id the packet leaves through when everything is up (-1: not forwarded to a router)
@@ -271,10 +279,14 @@ type event struct {
 	raw     []byte // non-nil: delivered through the fast path
 	// data packet
 	data int // index into pool; -1 for BFD events
+	stAt int // tracked session state of the packet's egress link when it is sent (generation only; 0 without session)
 	// observations
 	up    bool
 	obs   rtgen.Obs
-	fwd   int // link id the packet was handed to; -1 none
+	obs2  rtgen2.Obs // one-hop packets
+	rl    int        // link the slow-path reply was handed to; -1 none
+	rlUp  bool       // IsUp() of that link just before
+	fwd   int        // link id the packet was handed to; -1 none
 	reply []uint64
 	disp  int
 	took  time.Duration
@@ -291,6 +303,8 @@ type hist struct {
 	evs     []*event
 	viol    []string
 	err     string
+	ohp     bool     // history of the one-hop stream
+	tags    []string // known-finding tags, from the input
 }
 
 func linkIfaces(c *rtgen.Config) map[int][]*rtgen.Iface {
@@ -310,8 +324,49 @@ var dataKinds = []string{"transit", "xover", "first-hop", "peer-out", "peer-in",
 
 // genHist draws one history. scratch is a dataplane with fake links that are all up (to learn
 // where a packet goes when nothing is down).
-func genHist(r *vgen.Rand, cfgName string, cfg *rtgen.Config, scratch *rtgen.Router, nowSec int64) *hist {
-	h := &hist{cfgName: cfgName, cfg: cfg, reuse: r.Bool(), rd0: map[int]uint32{}}
+// genOHP draws a one-hop packet: "out" leaves the AS through an own external interface (valid
+// MAC, right neighbour), "badmac" the same with a wrong MAC, "in" enters the AS from a neighbour.
+func genOHP(r *vgen.Rand, cfg *rtgen.Config, nowSec int64, variant string) *dataPkt {
+	var own []*rtgen.Iface
+	for i := range cfg.Ifaces {
+		if f := &cfg.Ifaces[i]; f.Sibling == 0 && !f.Nbr.IsZero() {
+			own = append(own, f)
+		}
+	}
+	f := own[r.Intn(len(own))]
+	segid, ts := uint16(r.U64()), uint32(nowSec-10)
+	d := &rtgen2.OHP{
+		Info:  rtgen.Info{ConsDir: true, SegID: segid, Timestamp: ts},
+		First: rtgen.Hop{ConsEgress: f.ID, ExpTime: 63, Mac: rtgen.MAC(cfg.Key, segid, ts, 63, 0, f.ID)},
+		SrcIA: cfg.IA, DstIA: f.Nbr,
+		Src: rtgen.HostIP4(10, 0, byte(r.Intn(200)), byte(r.Range(1, 200))), Dst: rtgen.HostIP4(10, 7, byte(r.Intn(200)), byte(r.Range(1, 200))),
+		TC: uint8(r.U64()), FlowID: uint32(r.U64()) & 0xfffff,
+		L4: rtgen.UDP(uint16(r.Range(1024, 60000)), uint16(r.Range(1024, 60000)), r.Bytes(r.Intn(20))),
+	}
+	ing := rtgen.Ingress{Kind: rtgen.IngInt}
+	switch variant {
+	case "badmac":
+		d.First.Mac[r.Intn(6)] ^= byte(1 + r.Intn(255))
+	case "in":
+		d.SrcIA, d.DstIA = f.Nbr, cfg.IA
+		d.First.ConsEgress = uint16(r.Range(1, 500))
+		copy(d.First.Mac[:], r.Bytes(6))
+		ing = rtgen.Ingress{Kind: rtgen.IngExt, ID: int(f.ID)}
+	}
+	raw, err := d.Serialize()
+	if err != nil {
+		panic(err)
+	}
+	rec, _, err := rtgen2.Parse(raw)
+	if err != nil || rec == nil {
+		panic("c15: one-hop packet does not parse")
+	}
+	return &dataPkt{ohp: true, ing: ing, l4: d.L4, kind: "one-hop/" + variant, raw: raw, rec: rec, egress: -1,
+		macs: rtgen2.OHPMacTable(cfg, rec, uint16(ing.ID))}
+}
+
+func genHist(r *vgen.Rand, cfgName string, cfg *rtgen.Config, scratch *rtgen.Router, nowSec int64, ohpHist bool) *hist {
+	h := &hist{cfgName: cfgName, cfg: cfg, reuse: r.Bool(), rd0: map[int]uint32{}, ohp: ohpHist}
 	links := linkIfaces(cfg)
 	var allLinks []int
 	for id := range links {
@@ -320,6 +375,24 @@ func genHist(r *vgen.Rand, cfgName string, cfg *rtgen.Config, scratch *rtgen.Rou
 	sort.Ints(allLinks)
 	// packets
 	np := r.Range(2, 3)
+	if ohpHist { // one or two one-hop packets leaving the AS, sometimes a refused / an entering one, one SCION-path packet
+		np = 1
+		h.pool = append(h.pool, genOHP(r, cfg, nowSec, "out"))
+		if r.Bool() {
+			h.pool = append(h.pool, genOHP(r, cfg, nowSec, "out"))
+		}
+		if r.Bool() {
+			h.pool = append(h.pool, genOHP(r, cfg, nowSec, vgen.Pick(r, "badmac", "in")))
+		}
+		for _, d := range h.pool {
+			if o, err := scratch.Run(d.raw, d.ing); err == nil {
+				d.class = o.Class()
+				if o.Res.Disp == router.VerifForward && o.Res.EgressLink > 0 {
+					d.egress = o.Res.EgressLink
+				}
+			}
+		}
+	}
 	for i := 0; i < np; i++ {
 		sc := rtgen.GenValid(r, cfg, nowSec, dataKinds[r.Intn(len(dataKinds))])
 		if r.Chance(1, 4) {
@@ -336,9 +409,11 @@ func genHist(r *vgen.Rand, cfgName string, cfg *rtgen.Config, scratch *rtgen.Rou
 			i--
 			continue
 		}
-		d := &dataPkt{sc: sc, raw: raw, rec: rec, egress: -1}
+		d := &dataPkt{sc: sc, raw: raw, rec: rec, egress: -1, ing: sc.Ing, l4: sc.Desc.L4, kind: sc.Kind, mut: sc.Mut,
+			macs: rtgen.MacTable(cfg, rec)}
 		if o, err := scratch.Run(raw, sc.Ing); err == nil {
 			d.class = o.Class()
+			d.follow = strings.HasPrefix(d.class, "scmp-4-")
 			if o.Res.Disp == router.VerifForward && o.Res.EgressLink > 0 {
 				d.egress = o.Res.EgressLink
 			}
@@ -348,11 +423,11 @@ func genHist(r *vgen.Rand, cfgName string, cfg *rtgen.Config, scratch *rtgen.Rou
 	// sessions: on most egress links of the packets, on a few others
 	has := map[int]bool{}
 	for _, d := range h.pool {
-		if d.egress > 0 && r.Chance(4, 5) {
+		if d.egress > 0 && (d.ohp || r.Chance(4, 5)) {
 			has[d.egress] = true
 		}
-		if r.Chance(1, 3) { // the link a packet arrives on may have BFD as well (no influence)
-			has[d.sc.Ing.Link()] = true
+		if r.Chance(1, 3) || (d.follow && r.Chance(3, 4)) { // the link a packet arrives on may have BFD as well (no influence)
+			has[d.ing.Link()] = true
 		}
 	}
 	for i := r.Intn(3); i > 0; i-- {
@@ -378,7 +453,17 @@ func genHist(r *vgen.Rand, cfgName string, cfg *rtgen.Config, scratch *rtgen.Rou
 	for _, id := range h.sess {
 		state[id] = 1
 	}
+	upOnly := ohpHist && r.Chance(1, 3) // one-hop packets only while their egress session is up: nothing to report
 	targeted := func() int {
+		if upOnly {
+			var ok []int
+			for i, d := range h.pool {
+				if !d.ohp || d.egress <= 0 || !has[d.egress] || state[d.egress] == 3 {
+					ok = append(ok, i)
+				}
+			}
+			return ok[r.Intn(len(ok))]
+		}
 		var c, up []int
 		for i, d := range h.pool {
 			if d.egress > 0 && has[d.egress] {
@@ -396,7 +481,18 @@ func genHist(r *vgen.Rand, cfgName string, cfg *rtgen.Config, scratch *rtgen.Rou
 		}
 		return c[r.Intn(len(c))]
 	}
-	data := func(k int) { h.evs = append(h.evs, &event{data: k, fwd: -1}) }
+	data := func(k int) {
+		ev := &event{data: k, fwd: -1, rl: -1}
+		if d := h.pool[k]; d.egress > 0 && has[d.egress] {
+			ev.stAt = state[d.egress]
+			if d.ohp && ev.stAt != 3 && len(h.tags) == 0 {
+				// one-hop packet sent while the session of its egress link is not up: processOHP has no
+				// validateEgressUp (open known finding)
+				h.tags = []string{"ohp-ignores-link-state"}
+			}
+		}
+		h.evs = append(h.evs, ev)
+	}
 	data(targeted())
 	nPhases := r.Range(2, 3)
 	for ph := 0; ph < nPhases; ph++ {
@@ -607,7 +703,24 @@ func execHist(h *hist) {
 			if d.egress > 0 {
 				before = rt.DP.Links[d.egress].IsUp()
 			}
-			o, err := rt.Run(d.raw, d.sc.Ing)
+			if d.ohp {
+				o2, err := rtgen2.Run(rt, d.raw, d.ing)
+				if err != nil {
+					h.err = err.Error()
+					return
+				}
+				ev.obs2 = o2
+				ev.disp = o2.Res.Disp
+				if o2.Res.Disp == router.VerifForward && o2.Res.Sent {
+					ev.fwd = o2.Res.EgressLink
+				}
+				if o2.Res.Disp == router.VerifPanic {
+					h.viol = append(h.viol, "fast path panics: "+o2.Res.PanicMsg)
+				}
+				drain()
+				break
+			}
+			o, err := rt.Run(d.raw, d.ing)
 			if err != nil {
 				h.err = err.Error()
 				return
@@ -631,6 +744,16 @@ func execHist(h *hist) {
 					h.viol = append(h.viol, "slow path panics: "+sr.PanicMsg)
 				} else if !sr.Dropped {
 					ev.reply = append(decodeReply(sr.Out), uint64(sr.Link))
+				}
+				drain()
+			} else if d.follow && o.Res.Disp == router.VerifSlowPath && o.Res.Req.Type >= 0 {
+				// the reply of the slow path goes back over the link the packet came from
+				ev.rlUp = rt.DP.Links[d.ing.Link()].IsUp()
+				sr := rt.DP.VerifSlowPath(o.Res)
+				if sr.PanicMsg != "" {
+					h.viol = append(h.viol, "slow path panics: "+sr.PanicMsg)
+				} else if !sr.Dropped && sr.Sent {
+					ev.rl = sr.Link
 				}
 				drain()
 			}
@@ -684,9 +807,9 @@ func (h *hist) term() string {
 	sb.WriteString("(")
 	var macs, names []string
 	for i, d := range h.pool {
-		port, ok, _ := d.sc.Desc.L4.DstPort()
+		port, ok, _ := d.l4.DstPort()
 		fmt.Fprintf(&sb, "let pk%d := %s in ", i, d.rec.Gallina(port, ok))
-		macs = append(macs, rtgen.MacTable(h.cfg, d.rec))
+		macs = append(macs, d.macs)
 		names = append(names, fmt.Sprintf("pk%d", i))
 	}
 	var ss []string
@@ -698,12 +821,22 @@ func (h *hist) term() string {
 		switch {
 		case ev.data >= 0:
 			d := h.pool[ev.data]
+			if d.ohp {
+				evs = append(evs, fmt.Sprintf("(RouterBfd.HOhp %s %d %s %s)", d.ing.Gallina(), ev.data,
+					ev.obs2.ResultTerm(rtgen2.RecTerm(ev.obs2.Out, d.l4)), optN(ev.fwd)))
+				continue
+			}
+			if d.follow {
+				evs = append(evs, fmt.Sprintf("(let p := pk%d in RouterBfd.HPktR %d %s %d %s %s %s)", ev.data,
+					ev.obs.NowNs, d.ing.Gallina(), ev.data, ev.obs.ResultTerm(d.l4), optN(ev.rl), vgen.B(ev.rlUp)))
+				continue
+			}
 			reply := "None"
 			if ev.reply != nil {
 				reply = vgen.Opt(vgen.NList(ev.reply), true)
 			}
 			evs = append(evs, fmt.Sprintf("(let p := pk%d in RouterBfd.HPkt %d %s %d %s %s %s)", ev.data,
-				ev.obs.NowNs, d.sc.Ing.Gallina(), ev.data, ev.obs.ResultTerm(d.sc.Desc.L4), optN(ev.fwd), reply))
+				ev.obs.NowNs, d.ing.Gallina(), ev.data, ev.obs.ResultTerm(d.l4), optN(ev.fwd), reply))
 		case ev.timeout:
 			evs = append(evs, fmt.Sprintf("(RouterBfd.HBfd %d None (Some %s))", ev.link, vgen.B(ev.up)))
 		default:
@@ -740,7 +873,11 @@ func main() {
 		"expiry, MAC, interface ids, ...) sent repeatedly while real bfd.Session objects are driven by generated " +
 		"control packets (all states, irregular ones; direct or as SCION/BFD packets through processBFD; also to " +
 		"links without BFD) and detection-time expiries; non-trivial = the history contains a data packet whose " +
-		"egress link has a BFD session"
+		"egress link has a BFD session. Stream ohp-history (audit follow-up): one-hop packets (processOHP, no BFD upper " +
+		"layer) leaving through an own interface whose link has a session, sent in every session state (tag " +
+		"ohp-ignores-link-state when sent while the session is not up), plus refused / entering one-hop packets. " +
+		"Packets the fast path rejects with a parameter problem are followed through the slow path: the link the reply " +
+		"is handed to and its IsUp() are recorded"
 	rng := vgen.NewRand(run.Seed)
 
 	nCfg := run.Count(6, 40)
@@ -772,15 +909,19 @@ func main() {
 	run.Prelude = strings.Join(prelude, "\n")
 
 	nh := run.Count(96, 2400)
-	nData, nDataBfd, nBfd := 0, 0, 0
+	nOhp := run.Count(24, 400) // histories of the one-hop stream come after the nh ordinary ones
+	if run.N > 0 {
+		nOhp = run.N / 4
+	}
+	nData, nDataBfd, nBfd, nReplyDown := 0, 0, 0, 0
 	const batch = 96
-	for lo := 0; lo < nh; lo += batch {
-		hi := min(lo+batch, nh)
+	for lo := 0; lo < nh+nOhp; lo += batch {
+		hi := min(lo+batch, nh+nOhp)
 		nowSec := time.Now().Unix()
 		hs := make([]*hist, hi-lo)
 		for i := lo; i < hi; i++ {
 			c := cfgs[i%nCfg]
-			hs[i-lo] = genHist(rng.Fork(uint64(i)), c.name, c.cfg, c.scratch, nowSec)
+			hs[i-lo] = genHist(rng.Fork(uint64(i)), c.name, c.cfg, c.scratch, nowSec, i >= nh)
 		}
 		var wg sync.WaitGroup
 		sem := make(chan struct{}, 96)
@@ -826,6 +967,9 @@ func main() {
 				case ev.data >= 0:
 					d := h.pool[ev.data]
 					cls := ev.obs.Class()
+					if d.ohp {
+						cls = ev.obs2.Class()
+					}
 					where := "no-router-egress"
 					if d.egress > 0 {
 						where = linkKind(d.egress) + "-egress"
@@ -840,12 +984,31 @@ func main() {
 					if strings.HasSuffix(where, "-bfd") {
 						nDataBfd++
 					}
-					run.Tally("pkt:" + where + ":" + cls)
+					switch {
+					case d.ohp:
+						st := "no-session"
+						if d.egress > 0 && isSess[d.egress] {
+							st = fmt.Sprintf("session-state%d", ev.stAt)
+						}
+						run.Tally("ohp:" + d.kind + ":" + st + ":" + cls)
+					default:
+						run.Tally("pkt:" + where + ":" + cls)
+					}
+					if d.follow && ev.rl >= 0 {
+						ses := "nobfd"
+						if isSess[ev.rl] {
+							ses = "bfd"
+						}
+						run.Tally(fmt.Sprintf("reply-over-ingress-link:%s:up=%v", ses, ev.rlUp))
+						if !ev.rlUp {
+							nReplyDown++
+						}
+					}
 					if ev.reply != nil {
 						run.Tally("reply-decoded")
 					}
-					desc = append(desc, map[string]any{"pkt": ev.data, "kind": d.sc.Kind, "mut": d.sc.Mut,
-						"ingress": d.sc.Ing.String(), "egress_link": d.egress, "impl": cls, "reply": ev.reply, "ms": ev.took.Milliseconds()})
+					desc = append(desc, map[string]any{"pkt": ev.data, "kind": d.kind, "mut": d.mut, "reply_link": ev.rl, "reply_link_up": ev.rlUp,
+						"ingress": d.ing.String(), "egress_link": d.egress, "impl": cls, "reply": ev.reply, "ms": ev.took.Milliseconds()})
 					fmt.Fprintf(&key, "|p%x", d.raw)
 				case ev.timeout:
 					nBfd++
@@ -877,14 +1040,19 @@ func main() {
 				sib = "detached"
 			}
 			run.Tally("sibling-links:" + sib)
-			id := run.Add("history", h.term(), key.String(), nontriv, map[string]any{
+			kind := "history"
+			if h.ohp {
+				kind = "ohp-history"
+			}
+			id := run.Add(kind, h.term(), key.String(), nontriv, map[string]any{
 				"cfg": h.cfgName, "cfg_desc": h.cfg.Describe(), "sessions": h.sess, "rdisc0": h.rd0,
-				"sibling_links": sib, "events": desc})
+				"sibling_links": sib, "events": desc}, h.tags...)
 			for _, v := range h.viol {
 				run.Violate(id, v, map[string]any{"cfg": h.cfgName, "events": desc})
 			}
 		}
 	}
+	run.Extra("replies_sent_over_a_link_that_is_down", nReplyDown)
 	run.Extra("data_packets_processed", nData)
 	run.Extra("data_packets_with_bfd_egress", nDataBfd)
 	run.Extra("bfd_events", nBfd)
